@@ -27,7 +27,11 @@ type PlanC20 struct {
 	Role  string     `json:"role"`  // server: the table is on the server; client: on a client-side mux
 	Table [4][]HSpec `json:"table"` // per kind, in registration order
 	Envs  []EnvSpec  `json:"envs"`  // inbound envelopes, sent in this order by one sender
-	GapMs int        `json:"gap_ms"`
+	// PingLast (server role): the builder's AutoReplyPings() is called after the table was
+	// registered, and a ping request travels in the middle of the stream: it belongs to the
+	// earliest handler of the table that accepts it, and to the auto-reply only if none does
+	PingLast bool `json:"ping_last,omitempty"`
+	GapMs    int  `json:"gap_ms"`
 	// EndEarly: 1 = the sending party finishes the session right after its last send, 2 = it closes
 	// its connection instead; either way handlers may still be running when the session ends.
 	EndEarly int `json:"end_early,omitempty"`
@@ -68,6 +72,8 @@ func genC20(t *simrt.Tape, tier string) interface{} {
 	p.EndEarly = []int{0, 0, 0, 1, 1, 2}[t.Draw(6)]
 	p.LatePC = t.Draw(4) == 0
 	p.ByValue = t.Draw(4) == 0
+	// (in-process only: over the other transports the stock ping reply does not decode, see C11)
+	p.PingLast = p.Role == "server" && p.Conf.Listeners[0] == "inproc" && t.Draw(2) == 0
 	return p
 }
 
@@ -115,6 +121,9 @@ type invocation struct {
 
 func runC20(w *World, pi interface{}) {
 	p := pi.(*PlanC20)
+	if len(p.Conf.Listeners) == 0 || p.Conf.Listeners[0] != "inproc" || p.Role != "server" {
+		p.PingLast = false
+	}
 	if len(p.Conf.Listeners) == 0 || len(p.Envs) == 0 {
 		return
 	}
@@ -227,7 +236,12 @@ func runC20(w *World, pi interface{}) {
 	var f *Full
 	var err error
 	if p.Role == "server" {
-		f, err = StartFull(w, p.Conf, 7800, func(b *lime.ServerBuilder, f *Full) { register(builderRegistrar{b}) })
+		f, err = StartFull(w, p.Conf, 7800, func(b *lime.ServerBuilder, f *Full) {
+			register(builderRegistrar{b})
+			if p.PingLast {
+				b.AutoReplyPings()
+			}
+		})
 	} else {
 		f, err = StartFull(w, p.Conf, 7800, nil)
 	}
@@ -312,6 +326,14 @@ func runC20(w *World, pi interface{}) {
 	var sent []*Env
 	for i, es := range p.Envs {
 		e := BuildEnvelope(es, fmt.Sprintf("in.%d", i))
+		if p.PingLast && p.Role == "server" && i == len(p.Envs)/2 {
+			// (an ordinary request command, whose method and URI happen to be those of a ping)
+			ping := &lime.RequestCommand{}
+			ping.ID = fmt.Sprintf("in.%d", i)
+			ping.Method = lime.CommandMethodGet
+			ping.SetURIString("/ping")
+			e = &Env{ID: ping.ID, Kind: KRequest, Req: ping, Canon: canonJSON(ping)}
+		}
 		if lateResp != nil && i == len(p.Envs)/2 {
 			// the late answer to the abandoned command travels in the middle of the stream
 			sctx, scancel := context.WithTimeout(context.Background(), 30*time.Second)
@@ -499,6 +521,6 @@ func init() {
 		MaxSim: 2 * time.Hour,
 		Rule: "plans = (handler table: 0-4 handlers per kind, predicate from {nil, always, never, even/odd sequence number, kind-specific field test}, optional error at the k-th call, registered through the *Func helpers or as plain struct values through the interface-taking methods; on the server (ServerBuilder) or on a client-side EnvelopeMux; " +
 			"handler durations 0/3/150 ms; 1-50 inbound envelopes of all four kinds over tcp/tcp+tls/ws/wss/in-process with buffer sizes incl. 0; in a third of the runs the sending party finishes the session or drops the connection right after its last send, while handlers are still running; in a quarter of the runs the receiving side first gives up on a command of its own and the stream carries the late response to it); oracle: exactly one invocation, of the earliest-registered matching handler, envelope unaltered; none when nothing matches and later ones still dispatched; " +
-			"nothing after a handler error, and the server finishes the session; non-trivial = session established; distinct = distinct (plan JSON, event-log hash)",
+			"nothing after a handler error, and the server finishes the session; AutoReplyPings() called behind the generated table with a ping in the stream (in-process); non-trivial = session established; distinct = distinct (plan JSON, event-log hash)",
 	})
 }
